@@ -319,6 +319,16 @@ func Diff(a, b any) string {
 	return diff(reflect.ValueOf(a), reflect.ValueOf(b), "")
 }
 
+// DiffNoRdlen is Diff ignoring RR_Header.Rdlength (which reflects the encoding a record was
+// read from, e.g. compressed or not).
+func DiffNoRdlen(a, b any) string {
+	ignoreRdlen = true
+	defer func() { ignoreRdlen = false }()
+	return diff(reflect.ValueOf(a), reflect.ValueOf(b), "")
+}
+
+var ignoreRdlen bool // only toggled by single-goroutine monitors
+
 var ipType = reflect.TypeOf(net.IP{})
 
 func diff(a, b reflect.Value, path string) string {
@@ -364,6 +374,9 @@ func diff(a, b reflect.Value, path string) string {
 				continue
 			}
 			if a.Type().Field(i).PkgPath != "" { // unexported
+				continue
+			}
+			if ignoreRdlen && fn == "Rdlength" && tn == "RR_Header" {
 				continue
 			}
 			if d := diff(a.Field(i), b.Field(i), path+"."+fn); d != "" {
